@@ -150,6 +150,8 @@ type handlerOpt struct {
 	// strictLabel: the AS-KEK-label lookup fails for a DevEUI it has no record of (a database-backed lookup), instead
 	// of answering "no label"
 	strictLabel bool
+	// emptyNotNil: "no KEK for this label" is answered with an empty non-nil slice instead of nil
+	emptyNotNil bool
 }
 
 func newHandlerOpt(w *world, opt handlerOpt) http.Handler {
@@ -179,8 +181,12 @@ func newHandlerOpt(w *world, opt handlerOpt) http.Handler {
 			return dk, nil
 		},
 		GetKEKByLabelFunc: func(label string) ([]byte, error) {
-			// the configuration hands out its stored KEK, as a map-backed configuration (and the repository's own test) does
-			return keks[label], nil
+			// the configuration hands out its stored KEK, as a map-backed configuration (and the repository's own test) does;
+			// for a label without a KEK: nil (the map's answer) or - as the field's documentation words it - an empty slice
+			if k, ok := keks[label]; ok || !opt.emptyNotNil {
+				return k, nil
+			}
+			return []byte{}, nil
 		},
 		GetASKEKLabelByDevEUIFunc: func(e lorawan.EUI64) (string, error) {
 			if d, ok := devs[e]; ok {
@@ -644,7 +650,7 @@ func checkOne(c oneCase) evid.Outcome {
 	}
 	// the handler configuration varies with the transaction id: optional callbacks omitted where their documented
 	// default answers the same; a label lookup that fails for devices it does not know
-	opt := handlerOpt{omitOptional: c.Req.TxID&1 == 1, homeUnused: c.Req.Flow != flowHomeNS, strictLabel: c.Req.TxID&2 == 2}
+	opt := handlerOpt{omitOptional: c.Req.TxID&1 == 1, homeUnused: c.Req.Flow != flowHomeNS, strictLabel: c.Req.TxID&2 == 2, emptyNotNil: c.Req.TxID&4 == 4}
 	h := newHandlerOpt(&c.world, opt)
 	d := c.dev(&c.Req)
 	var status int
@@ -997,7 +1003,7 @@ const ruleRequests = "rapid: one provisioned device (uniform 16-byte NwkKey/AppK
 	"DevNonce/RJCount), echoes JoinNonce, NetID = SenderID, DevAddr, DLSettings, RxDelay, CFList bytes; envelopes: clear 16-byte key when no KEK is configured for " +
 	"the label (NS label = SenderID, AS label per device), else KEKLabel = label and reference RFC 3394 unwrap; keys = reference SessionKeys10 (OptNeg clear) / " +
 	"SessionKeys11 (OptNeg set); for rejoin exactly two key sets are accepted: the 1.1 derivation, or the documented 1.0-style one (known finding K4); flipped bit / " +
-	"wrong key => MICFailed, unknown DevEUI => UnknownDevEUI, both without join-accept or keys; HomeNSReq => configured home NetID. Histories: the same request " +
+	"wrong key => MICFailed, unknown DevEUI => UnknownDevEUI, both without join-accept or keys; HomeNSReq => configured home NetID. Handler configuration varied with the transaction id: optional callbacks left nil where the documented default answers the same, an AS-KEK-label lookup that answers an error instead of no label for a DevEUI it has no record of, a KEK lookup that answers nil or an empty slice for a label without KEK. Histories: the same request " +
 	"served a second time gets the same answer; in half of the cases the device is then provisioned again under the same DevEUI with other root keys on a second " +
 	"handler, sends the request under its new keys and is judged by the same oracle. Non-trivial: OptNeg set, or a KEK " +
 	"configured, or a rejoin, or a negative case."
